@@ -49,8 +49,14 @@ def drive_unpack(chunks, u=None):
     outs = []
     recs = []
     for ch in chunks:
-        u.feed(ch)
-        frames, err, info = drain(u)
+        try:
+            u.feed(ch)
+        except ProtocolException as e:
+            frames, err, info = [], 1, 'feed() raised %s' % type(e).__name__
+        except Exception as e:  # noqa
+            frames, err, info = [], 9, 'feed() raised %s: %s' % (type(e).__name__, e)
+        else:
+            frames, err, info = drain(u)
         outs.append('%s|E%d|B%d' % (','.join('F%d:%s' % (op, fp(d)) for op, d in frames), err, len(u.buf)))
         recs.append(dict(frames=frames, err=err, info=info, buflen=len(u.buf)))
     return ';'.join(outs), recs
